@@ -81,15 +81,80 @@ func (px *pathCtx) newInput(name, typ string, w uint8) *smt.Term {
 	if k > 0 {
 		full = fmt.Sprintf("%s#%d", name, k)
 	}
-	t := smt.Var(w, full)
+	var t *smt.Term
+	if px.concrete {
+		// concrete run: a pseudo-random value, biased towards small magnitudes and edges
+		r := px.rnd()
+		v := px.rnd()
+		switch r % 4 {
+		case 0:
+			v %= 4
+		case 1:
+			v %= 300
+		case 2:
+			v = -(v % 3) // 0, -1, -2: all-ones patterns
+		}
+		if w == 0 {
+			v &= 1
+		}
+		t = smt.Const(w, v)
+	} else {
+		t = smt.Var(w, full)
+	}
 	px.inputs = append(px.inputs, Input{Name: full, Term: t, Type: typ})
 	return t
 }
 
 func nondet(typ string, w uint8) intrinsicFn {
 	return func(fr *frame, args []value) value {
-		return fr.i.px.newInput(strArg(args[0]), typ, w)
+		t := fr.i.px.newInput(strArg(args[0]), typ, w)
+		if t.IsConst() {
+			return concreteValue(typ, t.C)
+		}
+		return t
 	}
+}
+
+// concreteValue converts a bit pattern to the native value of the named Go type.
+func concreteValue(typ string, c uint64) value {
+	switch typ {
+	case "bool":
+		return c != 0
+	case "int8":
+		return int8(c)
+	case "int16":
+		return int16(c)
+	case "int32":
+		return int32(c)
+	case "int64":
+		return int64(c)
+	case "int":
+		return int(c)
+	case "uint8":
+		return uint8(c)
+	case "uint16":
+		return uint16(c)
+	case "uint32":
+		return uint32(c)
+	case "uint64":
+		return c
+	case "uint":
+		return uint(c)
+	}
+	panic("concreteValue: " + typ)
+}
+
+// splitmix64 drives concrete (translator-validation) runs.
+func splitmix64(x uint64) uint64 {
+	x += 0x9e3779b97f4a7c15
+	x = (x ^ (x >> 30)) * 0xbf58476d1ce4e5b9
+	x = (x ^ (x >> 27)) * 0x94d049bb133111eb
+	return x ^ (x >> 31)
+}
+
+func (px *pathCtx) rnd() uint64 {
+	px.rngState = splitmix64(px.rngState)
+	return px.rngState
 }
 
 func inNondetBytes(fr *frame, args []value) value {
@@ -115,7 +180,19 @@ func inRange(fr *frame, args []value) value {
 	if lo == hi {
 		return int(lo)
 	}
-	t := fr.i.px.newInput(strArg(args[0]), "int", 64)
+	px := fr.i.px
+	if px.concrete {
+		v := lo + int64(px.rnd()%uint64(hi-lo+1))
+		name := strArg(args[0])
+		k := px.seq[name]
+		px.seq[name] = k + 1
+		if k > 0 {
+			name = fmt.Sprintf("%s#%d", name, k)
+		}
+		px.inputs = append(px.inputs, Input{Name: name, Term: smt.Const(64, uint64(v)), Type: "int"})
+		return int(v)
+	}
+	t := px.newInput(strArg(args[0]), "int", 64)
 	c := smt.BAnd(smt.Cmp(smt.OpSle, smt.Const(64, uint64(lo)), t), smt.Cmp(smt.OpSle, t, smt.Const(64, uint64(hi))))
 	assume(fr, c)
 	return t
